@@ -79,5 +79,5 @@ Lemma ob_handler_flushes_every_write : hw_unknown_length_flushes_every_write = t
 Proof. vm_compute. reflexivity. Qed.
 
 (* the run-time check of the theorem's hypotheses on observed responses is the theorem's own predicate *)
-Lemma ob_wf_twin : forall r order, wf_snapshot r order = wf_resp r order.
-Proof. intros r order. unfold wf_snapshot, wf_resp, wf_go, nocrlf_status. rewrite <- !andb_assoc. reflexivity. Qed.
+Lemma ob_wf_twin : forall q r order, wf_snapshot q r order = wf_resp q r order.
+Proof. intros q r order. unfold wf_snapshot, wf_resp, wf_go, nocrlf_status. rewrite <- !andb_assoc. reflexivity. Qed.
